@@ -186,7 +186,7 @@ func TestVerif_C20_basic(t *testing.T) {
 // TestVerif_C20_bearer: Request.SetBearerAuthToken / Client.SetCommonBearerAuthToken vs the model.
 func TestVerif_C20_bearer(t *testing.T) {
 	s := verifh.New(t, "C20", "bearer",
-		"token strings: plain, colon, UTF-8, Latin-1, empty, 200..900 bytes, spaces, arbitrary bytes; request-level and client-level setter (through the header merge) must agree; oracle: value after the 7-byte scheme prefix is the token; non-trivial = non-empty token")
+		"token strings: plain, colon, UTF-8, Latin-1, empty, 200..900 bytes, spaces, arbitrary bytes, scheme-like (a token that itself begins with Bearer / Basic / Digest in any letter case); request-level and client-level setter (through the header merge) must agree; oracle: value after the 7-byte scheme prefix is the token; non-trivial = non-empty token")
 	r := s.Rand()
 	n := verifh.N(3000, 60000)
 	for i := 0; i < n; i++ {
